@@ -829,7 +829,9 @@ func c38MakeCert(key crypto.PrivateKey, tpl string) (*Certificate, error) {
 }
 
 func c38PrivEqual(a, b crypto.PrivateKey) bool {
-	type eq interface{ Equal(x crypto.PrivateKey) bool }
+	type eq interface {
+		Equal(x crypto.PrivateKey) bool
+	}
 	if ae, ok := a.(eq); ok {
 		return ae.Equal(b)
 	}
